@@ -33,7 +33,7 @@ CONSTANTS LitSyms,     \* raw literal symbols patterns are built from  (subset o
           AbsFlags,    \* subset of BOOLEAN
           MaxSegs,     \* longest pattern
           MaxRoutes,   \* largest route table
-          Findings,    \* known deviations of the mechanism that the invariants excuse (subset of {"F8a".."F8f"})
+          Findings,    \* known deviations of the mechanism that the invariants excuse (subset of {"F8c", "F8d", "F8f"})
           DeepOverlap  \* TRUE: also check the syntactic overlap criterion against its definition (\E u)
 
 VARIABLES routes,      \* PlaneBuilder.model.routes : the patterns added so far, in order
@@ -52,9 +52,9 @@ SymDec == [ a |-> "a", ae |-> "a", b |-> "b",
             v |-> "v", we |-> "w", wl |-> "w", tr |-> "t", e |-> "" ]
 \* "ur" spells its text with characters that may not occur in a RouteUri path (non-ASCII, space,
 \* '?', '#', a lone '%' ...): the pattern parser takes it, a URI cannot contain it.
-\* "tr" is a value text that URL_ENCODE leaves as it is ('~' is "unreserved") although the RouteUri
-\* grammar has no such path character.
-UriLegalSym(s) == s \notin {"ur", "tr"}
+\* "tr" is a value text that URL_ENCODE leaves as it is ('~' is "unreserved"); since f104ab0 '~' is a
+\* RouteUri path character, so it is legal (before, the URI was cut at it: finding F8e, repaired).
+UriLegalSym(s) == s # "ur"
 \* what utf8_percent_encode(_, URL_ENCODE) produces for a decoded text: the canonical legal spelling
 EncOf == [ a |-> "a", b |-> "b", u |-> "ue", v |-> "v", w |-> "we", t |-> "tr" ]
 \* percent-decoded class of a raw parameter name ("xe" is a second spelling of "x")
@@ -62,7 +62,7 @@ NameDec == [ x |-> "x", y |-> "y", xe |-> "x" ]
 \* "sr" is a scheme the pattern parser takes but RouteUri does not ('_', ' ' ...)
 SchemeLegal(s) == s # "sr"
 
-ASSUME \A d \in DOMAIN EncOf : SymDec[EncOf[d]] = d /\ (UriLegalSym(EncOf[d]) \/ d = "t")
+ASSUME \A d \in DOMAIN EncOf : SymDec[EncOf[d]] = d /\ UriLegalSym(EncOf[d])
 ASSUME LitSyms \subseteq {"a", "ae", "b", "ue", "ul", "ur"} /\ ParSyms \subseteq DOMAIN NameDec
 
 LegalForm(s) == IF UriLegalSym(s) THEN s ELSE EncOf[SymDec[s]]
@@ -118,11 +118,9 @@ Match(p, u) ==
 \* P: the bindings, by the names apply() and parameters() use (the raw names).
 BindP(p, u) == [n \in Names(p) |-> SymDec[u.segs[PosOf(p, n)]]]
 
-\* M: unapply_parts keys the map by the percent-DECODED name; a later position overwrites.
-LastPos(p, d) == CHOOSE i \in ParPos(p) :
-                    /\ NameDec[p.segs[i].s] = d
-                    /\ \A j \in ParPos(p) : NameDec[p.segs[j].s] = d => j <= i
-BindM(p, u) == [d \in {NameDec[n] : n \in Names(p)} |-> SymDec[u.segs[LastPos(p, d)]]]
+\* M: unapply_parts keys the map by the raw segment_str since 7530ccc (before, by the percent-DECODED
+\* name, a later position overwriting: finding F8b, repaired) - so M = P here.
+BindM(p, u) == BindP(p, u)
 
 ----------------------------------------------------------------------------
 (* apply: m is a function from raw names to decoded values, "" = empty.    *)
@@ -143,12 +141,13 @@ RoundTripOK(p, m) == LET u == ApplyM(p, m) IN
 
 ----------------------------------------------------------------------------
 (* are_ambiguous (M): same number of segments and no position where both   *)
-(* are literals with different RAW text.  Scheme and absolute flag are not *)
-(* looked at.                                                              *)
+(* are literals with different percent-DECODED text (since 7530ccc; before, *)
+(* the raw text was compared: finding F8a, repaired).  Scheme and absolute  *)
+(* flag are not looked at.                                                  *)
 
 AmbM(p, q) == /\ N(p) = N(q)
               /\ \A i \in 1..N(p) :
-                    (Lit(p.segs[i]) /\ Lit(q.segs[i])) => p.segs[i].s = q.segs[i].s
+                    (Lit(p.segs[i]) /\ Lit(q.segs[i])) => SymDec[p.segs[i].s] = SymDec[q.segs[i].s]
 
 \* P: two patterns overlap iff some URI is matched by both.
 UriSpace(n) == [sc : USchemes, abs : BOOLEAN, segs : [1..n -> USyms]]
@@ -170,6 +169,9 @@ Canon(p, val) == [sc |-> p.sc, abs |-> p.abs,
 
 ----------------------------------------------------------------------------
 (* Shapes of the known deviations (signatures of known_findings/C18.json). *)
+(* F8a, F8b, F8e are repaired in the code: their shapes are kept because    *)
+(* they are exactly the inputs on which a regression would show (the dumps  *)
+(* carry them), but no law excuses them any more.                           *)
 
 F8a(p, q) == N(p) = N(q) /\ \E i \in 1..N(p) :
                 /\ Lit(p.segs[i]) /\ Lit(q.segs[i])
@@ -242,7 +244,7 @@ IncompleteMaps(p) == {[n \in Names(p) \ {x} |-> "v"] : x \in Names(p)}
 LawRoundTrip ==
     Len(routes) = 1 =>
         LET p == routes[1] IN
-        \A m \in CompleteMaps(p) : Complete(p, m) /\ (RoundTripOK(p, m) \/ Excused(p) \/ (F8e(m) /\ "F8e" \in Findings))
+        \A m \in CompleteMaps(p) : Complete(p, m) /\ (RoundTripOK(p, m) \/ Excused(p))
 
 \* apply refuses exactly the incomplete maps and names what is missing
 LawApplyMissing ==
@@ -272,13 +274,13 @@ LawNoEmptyBinding ==
         \A u \in WellFormedUris(p) :
             Match(p, u) => /\ \A n \in Names(p) : BindP(p, u)[n] # ""
                            /\ DOMAIN BindP(p, u) = Names(p)
-                           /\ (BindM(p, u) = BindP(p, u) \/ Excused(p))
+                           /\ BindM(p, u) = BindP(p, u)
 
 \* L3  whenever some URI is matched by two patterns, are_ambiguous reports them (both orders)
 LawAmbiguityComplete ==
     Len(routes) = 2 =>
         LET p == routes[1] q == routes[2] IN
-        /\ OverlapS(p, q) => (AmbM(p, q) \/ (F8a(p, q) /\ "F8a" \in Findings))
+        /\ OverlapS(p, q) => AmbM(p, q)
         /\ AmbM(p, q) = AmbM(q, p)
         /\ AmbM(p, p)
 
@@ -299,8 +301,7 @@ LawOverlapCharacterised ==
 TableF8a(rs) == \E ij \in Pairs(rs) : F8a(rs[ij[1]], rs[ij[2]])
 LawResolveUnique ==
     built = "accepted" =>
-        \/ \A u \in TableUris(routes) : Cardinality(Matching(routes, u)) <= 1
-        \/ (TableF8a(routes) /\ "F8a" \in Findings)
+        \A u \in TableUris(routes) : Cardinality(Matching(routes, u)) <= 1
 LawBuildRejects ==
     built = "rejected" => \E ij \in Pairs(routes) : AmbM(routes[ij[1]], routes[ij[2]])
 
@@ -308,5 +309,5 @@ LawBuildRejects ==
 FindIsTheMatch ==
     [][lastAct'.k = "find" =>
           /\ lastAct'.first = FirstMatch(routes, lastAct'.u)
-          /\ (lastAct'.all \subseteq {lastAct'.first} \/ (TableF8a(routes) /\ "F8a" \in Findings))]_vars
+          /\ lastAct'.all \subseteq {lastAct'.first}]_vars
 =============================================================================
